@@ -336,6 +336,8 @@ def brackets(in_file, in_encoding, **params):
                     raise ValueError("unknown state")
             else:
                 raise ValueError("unknown lexer token class")
+    if level > 0:
+        raise ValueError("unexpected end of file inside a bracketed tree")
 
 
 def discobrackets(in_file, in_encoding, **params):
